@@ -1,5 +1,6 @@
 """C28 - a signature is reported as covering the document only if it covers every byte.
-G: `sig geom` measures the geometry of every signature of the real samples and of synthetic signed documents;
+G: `sig geom` measures the geometry of every signature of the real samples and of synthetic signed documents (signature profile
+   x /Type of the signature dictionary {Sig, DocTimeStamp} x role {value of a signature field, direct /Perms /UR3 entry});
    TLC (spec/SigCover.tla) enumerates the manipulation lattice over these numbers and predicts the new /ByteRange,
    file length and Covers for every case.
 R: `sig c28` applies every case to the real files (synthetic documents are RE-SIGNED over the manipulated ranges, so
@@ -12,13 +13,15 @@ import vlib
 META = {
     "level": "model_checking",
     "text": "TLC enumerates the manipulation lattice of Sig.tla/SigCover.tla (appended bytes, a real incremental update, every "
-            "/ByteRange value shifted, gap widened/narrowed, overlapping ranges, and - on synthetic documents signed with the "
+            "/ByteRange value shifted, gap widened/narrowed - also up to each later '>' byte -, overlapping ranges, and - on synthetic "
+            "documents (profile x dictionary /Type x field / usage-rights role) signed with the "
             "harness's own key - signatures that verify cryptographically over ranges not starting at 0, not ending at EOF or not "
             "enclosing exactly the hex string) over the measured geometry of every signature; every case is applied to the real "
             "file, validated by the real API and the recorded verdict judged by TLC: reported unmodified only if Covers.",
     "note": "Trusted: the harness's CMS/PDF producer and PKI; the measurement of /ByteRange and the hex string extent on the raw "
-            "bytes; Sig.tla's Covers. With the current reader only document timestamps can be reported 'unmodified' (signatures of "
-            "other types are always downgraded to 'unknown', see assumptions), so the non-vacuous part is carried by the RFC 3161 cases.",
+            "bytes; Sig.tla's Covers. With the current reader only signature dictionaries of /Type /DocTimeStamp and direct /Perms /UR3 "
+            "usage-rights signatures can be reported 'unmodified' (ordinary form signatures are always downgraded to 'unknown', see "
+            "assumptions); the non-vacuous part is carried by those documents (signatures_reportable_unmodified is measured per run).",
     "technique": "TLA+ manipulation lattice enumerated by TLC, replayed into real files + TLC validation of the recorded verdicts",
     "design_ref": "DESIGN.md §5 C28",
 }
@@ -110,8 +113,9 @@ def run(ctx):
                valid_without_cover=summ["valid_without_cover"], exec_s=round(summ["exec_s"], 1))
         ev.assume("reported unmodified := DocModified == false or Reason == 'document has not been modified' (property observables); "
                   "Status == valid alone is not counted (valid_without_cover lists how often it occurs on non-covering files)",
-                  "pdfcpu's reader numbers increments from 1 while pkg/pdfcpu/sign.go treats increment 0 as the current revision, so form / "
-                  "usage-rights signatures are never reported unmodified and their boundary check is not reached; those cases hold trivially",
+                  "pdfcpu's reader numbers increments from 1 while pkg/pdfcpu/sign.go treats increment 0 as the current revision, so ordinary form "
+                  "signatures (and usage-rights signatures held in an indirect object) are never reported unmodified and their boundary check is "
+                  "not reached; those cases hold trivially",
                   "in-place edits keep the digit count of /ByteRange values (cases that would change it are skipped and counted)")
     finally:
         shutil.rmtree(d, ignore_errors=True)
